@@ -106,8 +106,10 @@ func (c *Catalog) tagsFromTagsDirective(d *directive.Directive) ([]*Tag, *jerr.J
 		}
 		seen[tn] = struct{}{}
 
+		// Only a declared tag: whether the tag of a path exists yet depends on
+		// the order of the interactions.
 		t, ok := c.Tags.Get(tn)
-		if !ok {
+		if !ok || t.fromPath {
 			return nil, d.KeywordError(fmt.Sprintf("%s %q", jerr.TagNotFound, tn))
 		}
 
